@@ -5,3 +5,4 @@ pub mod c06;
 pub mod c09;
 pub mod c10;
 pub mod c03;
+pub mod c14;
